@@ -45,6 +45,7 @@ type Unit struct {
 	litOrd       map[*ast.FuncLit]int
 	allocd       map[string]bool
 	views        map[string]viewInfo // re-sliced views s[a:b], a > 0: view array -> (base array, offset)
+	cuts         map[string]bool     // re-sliced prefixes s[:k] made by this unit: "arr|len" of the resulting slice value
 	allocT       map[string]types.Type // struct type of objects allocated by this unit (publish rule for lock invariants)
 	resultObjs   []types.Object
 	synthResults []*types.Var
